@@ -1,7 +1,7 @@
 (* Proofs for C12 (equality and ordering of values). *)
 From Coq Require Import String List ZArith Bool NArith Lia Reals.
 From Flocq Require Import Core.Core IEEE754.BinarySingleNaN IEEE754.Binary IEEE754.Bits.
-From RV Require Import Base.F64 Base.Text Model.Units Model.Numeric Model.ValueEq.
+From RV Require Import Base.F64 Base.Text Base.ListX Model.Units Model.Numeric Model.CssStr Model.ValueEq.
 Import ListNotations.
 Local Open Scope Z_scope.
 
@@ -121,7 +121,7 @@ Section ValueInd.
   Hypothesis HTrue : P VTrue.
   Hypothesis HFalse : P VFalse.
   Hypothesis HNum : forall n c, P (VNum n c).
-  Hypothesis HStr : forall s q, P (VStr s q).
+  Hypothesis HStr : forall s, P (VStr s).
   Hypothesis HList : forall xs s b, Forall P xs -> P (VList xs s b).
   Hypothesis HMap : forall kvs, Forall (fun kv => P (fst kv) /\ P (snd kv)) kvs -> P (VMap kvs).
   Hypothesis HOther : P VOther.
@@ -129,7 +129,7 @@ Section ValueInd.
     match v with
     | VNull => HNull | VTrue => HTrue | VFalse => HFalse
     | VNum n c => HNum n c
-    | VStr s q => HStr s q
+    | VStr s => HStr s
     | VList xs s b =>
         HList xs s b ((fix go (l : list value) : Forall P l :=
                          match l with [] => Forall_nil P | x :: r => Forall_cons x (value_ind' x) (go r) end) xs)
@@ -258,6 +258,27 @@ Proof.
   - cbn [orb] in H. destruct (numeric_eq_unitless_vs_unit a b E H) as [-> ->]. reflexivity.
 Qed.
 
+(* ---- strings: CssString equality is reflexive and symmetric (all stored values, all quotes) ---- *)
+Lemma cps_eqb_refl : forall s, cps_eqb s s = true.
+Proof. unfold cps_eqb. induction s; [reflexivity|]. cbn [list_eqb]. rewrite N.eqb_refl. exact IHs. Qed.
+Lemma cps_eqb_sym : forall s t, cps_eqb s t = cps_eqb t s.
+Proof.
+  unfold cps_eqb. induction s; destruct t; try reflexivity. cbn [list_eqb]. rewrite N.eqb_sym, IHs. reflexivity.
+Qed.
+Lemma quotes_eqb_sym : forall a b, quotes_eqb a b = quotes_eqb b a.
+Proof. destruct a, b; reflexivity. Qed.
+Lemma str_eqb_refl : forall s, str_eqb s s = true.
+Proof.
+  intros s. unfold str_eqb, css_eq. assert (quotes_eqb (s_q s) (s_q s) = true) as -> by (destruct (s_q s); reflexivity).
+  apply cps_eqb_refl.
+Qed.
+Lemma str_eqb_sym : forall s t, str_eqb s t = str_eqb t s.
+Proof.
+  intros s t. unfold str_eqb, css_eq. rewrite (quotes_eqb_sym (s_q t)).
+  destruct (quotes_eqb (s_q s) (s_q t)); [apply cps_eqb_sym|].
+  destruct (css_unquote s), (css_unquote t); try reflexivity. apply cps_eqb_sym.
+Qed.
+
 (* ---- reflexivity ---- *)
 Lemma all2_refl : forall xs, Forall (fun v => veq v v = true) xs -> all2 value veq xs xs = true.
 Proof. induction 1; cbn [all2]; [reflexivity|]. rewrite H, IHForall. reflexivity. Qed.
@@ -313,7 +334,7 @@ Proof.
   induction v using value_ind'; intros Ho Hn Hm; try reflexivity.
   - cbn [veq]. apply num_eqb_refl. unfold nan_free in Hn. cbn in Hn.
     rewrite andb_true_r in Hn. apply negb_true_iff in Hn. exact Hn.
-  - cbn [veq]. clear. induction s; [reflexivity|]. cbn [bytes_eqb]. rewrite N.eqb_refl. exact IHs.
+  - cbn [veq]. apply str_eqb_refl.
   - rewrite veq_list, Z.eqb_refl, eqb_reflx, !andb_true_r.
     apply all2_refl. cbn [has_other] in Ho. unfold nan_free in Hn. cbn [numbers_of] in Hn. cbn [maps_nodup] in Hm.
     revert Ho Hn Hm. induction H as [|x xs Hx HF IH]; intros Ho Hn Hm; [constructor|].
@@ -354,8 +375,7 @@ Fixpoint maps_le1 (v : value) : bool :=
 
 Lemma booleqb_sym : forall x y : bool, Bool.eqb x y = Bool.eqb y x.
 Proof. destruct x, y; reflexivity. Qed.
-Lemma bytes_eqb_sym : forall s t, bytes_eqb s t = bytes_eqb t s.
-Proof. induction s; destruct t; try reflexivity. cbn [bytes_eqb]. rewrite N.eqb_sym, IHs. reflexivity. Qed.
+
 
 Definition sym_at (x : value) : Prop :=
   forall y, maps_le1 x = true -> maps_le1 y = true ->
@@ -380,9 +400,9 @@ Lemma veq_sym_general : forall a b, maps_le1 a = true -> maps_le1 b = true -> pa
 Proof.
   unfold pairs_sym. intros a. change (sym_at a).
   induction a using value_ind'; intros vb Ha Hb HP;
-    destruct vb as [| | |m cm|t qt|ys s' b'|kvs'|]; try reflexivity.
+    destruct vb as [| | |m cm|t|ys s' b'|kvs'|]; try reflexivity.
   - cbn [veq]. apply HP; cbn; auto.
-  - cbn [veq]. apply bytes_eqb_sym.
+  - cbn [veq]. apply str_eqb_sym.
   - rewrite !veq_list. rewrite (Z.eqb_sym s), (booleqb_sym b). f_equal. f_equal.
     apply all2_sym; [exact H|exact Ha|exact Hb|]. intros n0 m0 Hn Hm. apply HP; cbn [numbers_of]; assumption.
   - cbn [veq]. destruct xs, kvs'; reflexivity.
